@@ -44,6 +44,8 @@ TEMPLATES = [
     ('leading', "", "A: 'a';"),
     ('trailing', "A: 'a';", ""),
     ('reference', "reference ", " A: 'a';"),
+    ('reference-then-import', "reference a\nimport", "\nA: 'a';"),
+    ('import-then-reference', "import b\nreference", "\nA: 'a';"),
     ('import', "import ", "\nA: 'a';"),
     ('bracket', "A: (", ");"),
     ('regex', "A: /", "/;"),
